@@ -113,6 +113,11 @@ func (c PageCase) walkWith(sizeOnly bool, render func(idx uint16) (string, error
 				} else {
 					w.classes = append(w.classes, "content-cannot-fit")
 				}
+				// ... but then there is no second page either: a page that renders with a
+				// 'previous' entry would lead back to one that does not
+				if out1, err1, p1 := render(1); !sizeOnly && p1 == nil && err1 == nil && c.Prev != nil {
+					return fail("previous-leads-to-failing-page", c.offeredFailReason(rows, 0, 0), "page 0 fails to render (%v) but page 1 renders %q, whose 'previous' entry leads to page 0", err, out1)
+				}
 				return
 			}
 			if sizeOnly {
@@ -339,29 +344,39 @@ func init() {
 // the pages are obtained by sending the 'next' selector to a real engine, long-lived or
 // engine-per-request.
 
-func (c PageCase) toApp() *app.App {
-	a := &app.App{Menus: map[string]string{}}
+// addNode adds the page set-up as node name to the application; prefix renames its
+// symbols and labels (two page set-ups in one application must not share them), back adds
+// a selector that leaves the node upwards.
+func (c PageCase) addNode(a *app.App, name, prefix, back string) {
 	for k, v := range c.Labels {
-		a.Menus[k] = v
+		a.Menus[prefix+k] = v
 	}
-	a.Cfg.OutputSize = c.Size
-	a.Cfg.MenuSeparator = c.Sep
 	var code []app.Instr
 	for _, v := range c.Vals {
-		a.Syms = append(a.Syms, app.Sym{Name: v.Sym, Results: []app.Result{{Content: v.Content}}})
-		code = append(code, app.Instr{Op: refdec.LOAD, Sym: refdec.BS(v.Sym), Num: uint32(v.Limit)})
+		a.Syms = append(a.Syms, app.Sym{Name: prefix + v.Sym, Results: []app.Result{{Content: v.Content}}})
+		code = append(code, app.Instr{Op: refdec.LOAD, Sym: refdec.BS(prefix + v.Sym), Num: uint32(v.Limit)})
 	}
 	for _, v := range c.Vals {
-		code = append(code, app.Instr{Op: refdec.MAP, Sym: refdec.BS(v.Sym)})
+		code = append(code, app.Instr{Op: refdec.MAP, Sym: refdec.BS(prefix + v.Sym)})
 	}
 	for _, m := range c.Menu {
-		code = append(code, app.Instr{Op: refdec.MOUT, Sym: refdec.BS(m.Label), Sel: refdec.BS(m.Sel)})
+		if _, ok := c.Labels[m.Label]; !ok && prefix != "" {
+			a.Menus[prefix+m.Label] = m.Label // absent label text: the symbol itself
+		}
+		code = append(code, app.Instr{Op: refdec.MOUT, Sym: refdec.BS(prefix + m.Label), Sel: refdec.BS(m.Sel)})
+	}
+	for _, b := range []*MItem{c.Next, c.Prev} {
+		if b != nil && prefix != "" {
+			if _, ok := c.Labels[b.Label]; !ok {
+				a.Menus[prefix+b.Label] = b.Label
+			}
+		}
 	}
 	if c.Next != nil {
-		code = append(code, app.Instr{Op: refdec.MNEXT, Sym: refdec.BS(c.Next.Label), Sel: refdec.BS(c.Next.Sel)})
+		code = append(code, app.Instr{Op: refdec.MNEXT, Sym: refdec.BS(prefix + c.Next.Label), Sel: refdec.BS(c.Next.Sel)})
 	}
 	if c.Prev != nil {
-		code = append(code, app.Instr{Op: refdec.MPREV, Sym: refdec.BS(c.Prev.Label), Sel: refdec.BS(c.Prev.Sel)})
+		code = append(code, app.Instr{Op: refdec.MPREV, Sym: refdec.BS(prefix + c.Prev.Label), Sel: refdec.BS(c.Prev.Sel)})
 	}
 	if c.MSink {
 		code = append(code, app.Instr{Op: refdec.MSINK})
@@ -373,15 +388,47 @@ func (c PageCase) toApp() *app.App {
 	if c.Prev != nil {
 		code = append(code, app.Instr{Op: refdec.INCMP, Sym: "<", Sel: refdec.BS(c.Prev.Sel)})
 	}
+	if back != "" {
+		code = append(code, app.Instr{Op: refdec.INCMP, Sym: "_", Sel: refdec.BS(back)})
+	}
 	code = append(code, app.Instr{Op: refdec.INCMP, Sym: ".", Sel: "*"})
-	a.Nodes = []app.Node{{Name: "root", Code: code, Tpl: c.Tpl},
-		{Name: "_catch", Code: []app.Instr{{Op: refdec.HALT}, {Op: refdec.INCMP, Sym: "_", Sel: "*"}}, Tpl: "CATCH"}}
+	a.Nodes = append(a.Nodes, app.Node{Name: name, Code: code, Tpl: strings.ReplaceAll(c.Tpl, "{{.", "{{."+prefix)})
+}
+
+var catchNode = app.Node{Name: "_catch", Code: []app.Instr{{Op: refdec.HALT}, {Op: refdec.INCMP, Sym: "_", Sel: "*"}}, Tpl: "CATCH"}
+
+func (c PageCase) toApp() *app.App {
+	a := &app.App{Menus: map[string]string{}}
+	a.Cfg.OutputSize = c.Size
+	a.Cfg.MenuSeparator = c.Sep
+	c.addNode(a, "root", "", "")
+	a.Nodes = append(a.Nodes, catchNode)
+	return a
+}
+
+// toAppAfter: the page set-up as node "main" below a plain root, next to another paged
+// node "other" (the set-up before) that the session visits first.
+func (c PageCase) toAppAfter(before PageCase) *app.App {
+	a := &app.App{Menus: map[string]string{}}
+	a.Cfg.OutputSize = c.Size
+	a.Cfg.MenuSeparator = c.Sep
+	a.Nodes = []app.Node{{Name: "root", Tpl: "top", Code: []app.Instr{{Op: refdec.HALT},
+		{Op: refdec.INCMP, Sym: "other", Sel: "o"}, {Op: refdec.INCMP, Sym: "main", Sel: "m"}, {Op: refdec.INCMP, Sym: ".", Sel: "*"}}}}
+	before.Sep = c.Sep
+	before.addNode(a, "other", "b_", "bk")
+	c.addNode(a, "main", "", "bk")
+	a.Nodes = append(a.Nodes, catchNode)
 	return a
 }
 
 type C02Engine struct {
 	Page PageCase `json:"page"`
 	Mode app.Mode `json:"mode"`
+	// Before: another paged node that the same session enters first, browses BeforeNext
+	// pages forward and leaves again (what one node's pagination leaves behind in the
+	// engine must not reach the next node's)
+	Before     *PageCase `json:"before,omitempty"`
+	BeforeNext int       `json:"before_next,omitempty"`
 }
 
 func checkC02Engine(c C02Engine) (o Outcome) {
@@ -400,14 +447,50 @@ func checkC02Engine(c C02Engine) (o Outcome) {
 		storage, cleanup = newStorage(c.Mode.Backend)
 	}
 	defer cleanup()
-	s := app.NewSession(app.NewShared(pc.toApp()), c.Mode, storage)
+	theApp := pc.toApp()
+	enter := ""
+	if c.Before != nil {
+		theApp = pc.toAppAfter(*c.Before)
+		enter = "m"
+	}
+	s := app.NewSession(app.NewShared(theApp), c.Mode, storage)
+	if c.Before != nil {
+		// visit the other node first
+		ins := []string{"", "o"}
+		for i := 0; i < c.BeforeNext && c.Before.Next != nil; i++ {
+			ins = append(ins, c.Before.Next.Sel)
+		}
+		ins = append(ins, "bk")
+		// whatever the other node does with this output size (it may not even render): the
+		// session only has to be back at the top afterwards
+		var after *app.Snapshot
+		for i := 0; i < len(ins)+3; i++ {
+			in := "bk"
+			if i < len(ins) {
+				in = ins[i]
+			} else if after != nil && len(after.Path) == 1 {
+				break
+			}
+			st := s.Request([]byte(in))
+			after = st.After
+			if st.Panic != "" || (!st.Cont && st.ExecErr == "") {
+				o.Discard = "visit-before-fails"
+				return
+			}
+		}
+		if after == nil || len(after.Path) != 1 {
+			o.Discard = "visit-before-does-not-return"
+			return
+		}
+		o.class("visited-other-node-first")
+	}
 	cur := -1
 	var pages []string
 	var last app.Step
 	// sequential access: index i is reached by sending 'next' i times
 	render := func(idx uint16) (string, error, *panicInfo) {
 		for cur < int(idx) {
-			in := ""
+			in := enter
 			if cur >= 0 {
 				in = pc.Next.Sel
 			}
@@ -492,7 +575,14 @@ func TestC02(t *testing.T) {
 	RunProp(t, "C02", "engine", pick(1500, 15000), func(t *rapid.T) C02Engine {
 		pc := genPageCase(t, pageGenOpts{sink: true})
 		pc.Err = ""
-		return C02Engine{Page: pc, Mode: []app.Mode{{Kind: "long"}, {Kind: "persist", Backend: "mem"}}[uniformN(t, 2, "mode")]}
+		c := C02Engine{Page: pc, Mode: []app.Mode{{Kind: "long"}, {Kind: "persist", Backend: "mem"}}[uniformN(t, 2, "mode")]}
+		if chancePct(t, 35, "before") {
+			b := genPageCase(t, pageGenOpts{sink: true})
+			b.Err = ""
+			b.Size = pc.Size
+			c.Before, c.BeforeNext = &b, uniformN(t, 4, "beforenext")
+		}
+		return c
 	}, checkC02Engine)
 }
 
